@@ -3,6 +3,7 @@ package c15
 import (
 	"fmt"
 	"reflect"
+	"math/big"
 	"sort"
 	"strconv"
 	"strings"
@@ -178,6 +179,10 @@ func (x *descr) expr(e schema.Expr, c *schema.Column) string {
 	case nil:
 		return "none"
 	case *schema.Literal:
+		if x.norm && hexBitPrefix(e.V) {
+			x.rule("hex-bit-literal-kind")
+			return "rawexpr " + strconv.Quote(e.V)
+		}
 		return "literal " + strconv.Quote(x.literal(e.V, c))
 	case *schema.RawExpr:
 		return "rawexpr " + strconv.Quote(e.X)
@@ -332,16 +337,95 @@ func render(v reflect.Value, x *descr, depth int) string {
 }
 
 // ---------------------------------------------------------------------------------------------------
-// Documented-defaulting rules. EMPTY until a disagreement has been observed and triaged.
+// Documented-defaulting rules. Each one was added after a disagreement was observed on the unchanged
+// tree and triaged as legitimate; the Atlas line that documents the equivalence is quoted.
 // ---------------------------------------------------------------------------------------------------
+
+// ruleDocs lists the active normalisation rules with the Atlas line that documents each (evidence).
+var ruleDocs = map[string]string{
+	"literal-quotes": "a quoted string literal equals its unquoted content: sql/internal/specutil/convert.go ColumnDefault " +
+		"(`case sqlx.IsQuoted(x.V, '\\'', '\"'): // Normalize single quotes to double quotes`) writes 'abc' as default = \"abc\" and Default() reads it back as Literal{abc}; " +
+		"the differs unquote both sides (sqlx.Unquote). The differ leg still runs on the un-normalised graphs.",
+	"hex-bit-literal-kind": "a literal with a 0x/0b/x'/b' prefix equals the raw expression of the same text: ColumnDefault " +
+		"(`case oneOfPrefix(x.V, \"0x\", \"0X\", \"0b\", \"0B\", \"b'\", \"B'\", \"x'\", \"X'\"): return schemahcl.RawExprValue`) writes it as sql(\"0x1F\").",
+	"numeric-literal-value": "on a column that is not text-like, two numeric literals are compared by exact rational value (007 = 7, 1.50 = 1.5, +5 = 5): ColumnDefault " +
+		"(`case sqlx.IsLiteralNumber(x.V) && !textlike`) writes them as HCL numbers. A literal that loses digits (float64) is NOT equal under this rule.",
+	"generated-type-default": "GeneratedExpr.Type is compared upper-cased with the dialect default filled in: mysql/sqlspec_oss.go storedOrVirtual " +
+		"(`// The default is VIRTUAL if no type is specified.`, `// In MariaDB, PERSISTENT is synonyms for STORED.`), sqlite/sqlspec.go storedOrVirtual, " +
+		"postgres/sqlspec_oss.go generatedType (`// generatedType returns the default and only type for a generated column.`).",
+	"inherited-charset": "MySQL: an element's charset/collation equal to its parent's is not written (the element inherits it): sql/internal/sqlx/diff.go Charset/Collate " +
+		"(`// ... it needs to be defined explicitly on the schema. This is true, in case the element charset is different from its parent charset.`). " +
+		"The descriptor compares the effective value (own, else the parent's). An element value WITHOUT any parent value is not covered by this rule.",
+}
 
 // normParam may replace the rendering of one parameter field of a type.
 func (x *descr) normParam(t schema.Type, field string, fv reflect.Value) (string, bool) {
 	return "", false
 }
 
+func wellQuoted(v string, q byte) (string, bool) {
+	if len(v) < 2 || v[0] != q || v[len(v)-1] != q {
+		return "", false
+	}
+	in := v[1 : len(v)-1]
+	var b strings.Builder
+	for i := 0; i < len(in); i++ {
+		switch {
+		case in[i] == q && i+1 < len(in) && in[i+1] == q:
+			b.WriteByte(q)
+			i++
+		case in[i] == q:
+			return "", false
+		default:
+			b.WriteByte(in[i])
+		}
+	}
+	return b.String(), true
+}
+
+func hexBitPrefix(v string) bool {
+	for _, p := range []string{"0x", "0X", "0b", "0B", "b'", "B'", "x'", "X'"} {
+		if strings.HasPrefix(v, p) {
+			return true
+		}
+	}
+	return false
+}
+
+func textlike(c *schema.Column) bool {
+	if c == nil || c.Type == nil {
+		return true
+	}
+	switch c.Type.Type.(type) {
+	case *schema.StringType, *schema.EnumType:
+		return true
+	}
+	return false
+}
+
 // literal may replace the text of a literal default.
 func (x *descr) literal(v string, c *schema.Column) string {
+	if !x.norm {
+		return v
+	}
+	if hexBitPrefix(v) {
+		return v
+	}
+	if u, ok := wellQuoted(v, '\''); ok && !strings.Contains(u, "\\") {
+		x.rule("literal-quotes")
+		v = u
+	} else if u, ok := wellQuoted(v, '"'); ok && !strings.Contains(u, "\\") {
+		x.rule("literal-quotes")
+		v = u
+	}
+	if !textlike(c) && v != "" && !strings.ContainsAny(v, "/_ ") {
+		if r, ok := new(big.Rat).SetString(v); ok {
+			if n := r.RatString(); n != v {
+				x.rule("numeric-literal-value")
+				return n
+			}
+		}
+	}
 	return v
 }
 
@@ -393,6 +477,3 @@ func pathClass(p string) string {
 	}
 	return b.String()
 }
-
-// ruleDocs lists the active normalisation rules with the Atlas line that documents each (evidence).
-var ruleDocs = map[string]string{}
